@@ -25,10 +25,10 @@
 (*   BatchSysFirst    an early failure (identity point, shape, capacity,   *)
 (*                    failing closure) of a member is the batch's result,  *)
 (*                    the first such member in batch order winning         *)
-(*   PairOpposite     the +1 / -1 pair has opposite non-zero residuals,    *)
-(*                    and is accepted exactly when its two weights are     *)
-(*                    equal - under SharedWeight = TRUE (the wrong design) *)
-(*                    BatchSysIff must therefore FAIL (non-vacuity probe)  *)
+(*   PairOpposite     the +1 / -1 pair has opposite residuals, so it is    *)
+(*                    accepted whenever its two weights are equal - under  *)
+(*                    SharedWeight = TRUE (the wrong design) BatchSysIff   *)
+(*                    must therefore FAIL (non-vacuity probe)              *)
 (***************************************************************************)
 EXTENDS MC_Protocol, FiniteSets
 
@@ -124,8 +124,7 @@ PairAt(i, j) == pool[i].tam = "b" /\ pool[j].tam = "bminus" /\ pool[i].base = po
 PairOpposite ==
   (Checked /\ NoDegen) =>
      \A i, j \in 1 .. Len(pool) : PairAt(i, j) =>
-        /\ pool[i].alg.mega # 0
-        /\ Fadd(pool[i].alg.mega, pool[j].alg.mega) = 0
+        Fadd(pool[i].alg.mega, pool[j].alg.mega) = 0        \* (non-zero except when b's weight vanishes: probability 1/P)
 
 BatchSysInv == BatchSysIff /\ BatchSysFirst /\ PairOpposite
 
